@@ -66,7 +66,7 @@ class PrepareSimPass( BasePass ):
       sim_eval_combinational = SimpleTickPass.gen_tick_function( [top._sim.check_top_level_inports] + top._sched.update_schedule )
     else:
       def sim_eval_combinational():
-        raise NotImplementedError(f"top is not a pure RTL design. {'top'+repr(list(method_ports)[0])[1:]} is a method port.")
+        raise NotImplementedError("top is not a pure RTL design: it has method ports or update_once blocks.")
 
     top.sim_eval_combinational = sim_eval_combinational
 
